@@ -11,6 +11,8 @@ The streams are aimed at the case splits of the proofs and of the code:
   * multipart with present / missing / duplicated / terminal boundaries, nested parts
   * well-formed multipart aimed at send_qp's per-part decision matrix: {over-long line in the part's own header, over-long
     body line, 8 bit in the part's body / header, nothing} x {8BITMIME or not} x {first / middle / last part, nested}
+  * well-formed multipart aimed at the hand-over between the writers (send_plain, wrap_header, recode_qp, literal CRLF and
+    boundary writes): parts / preamble / epilogue that begin and end with dot lines, x the per-part decision
 """
 import runlib as R
 
@@ -230,12 +232,87 @@ def _part_matrix(rng):
     return m
 
 
+DOT_LINES = [b'.', b'.', b'.', b'..', b'...', b'.a', b'. ', b'.\t', b'.=', b'.--']
+
+
+def _dot_parts(rng):
+    """well-formed multipart whose parts (first / middle / last), preamble and epilogue begin and end with lines that are a
+    dot or start with one, across the per-part decision send_plain / send_qp: dots directly behind a boundary line (part
+    without header lines), as the first body line behind an empty or a real part header, and as the last line in front of
+    the next boundary.  One part (or the preamble / epilogue) carries the defect that sends the message through send_qp;
+    the pieces are handed from one writer to the next (send_plain, wrap_header, recode_qp, the literal CRLF / boundary
+    writes) at exactly these places."""
+    eol = rng.choice([b'\r\n', b'\r\n', b'\r\n', b'\r\n', b'\n', b'\r'])
+    b = rng.choice([b'b0', b'x', b'=_dots', b'd' * 69])
+    quoted = b.find(b'=') >= 0 or rng.random() < 0.5
+    nparts = rng.randrange(1, 4)
+    where = rng.randrange(-1, nparts + 1)          # -1: preamble, nparts: epilogue (or no defect at all)
+    defect = rng.choice(['8bit', '8bit', 'long', 'longhdr'])
+
+    def bad_line():
+        if defect == '8bit':
+            return _txt(rng, rng.randrange(1, 40), '8bit')
+        return _txt(rng, rng.choice([999, 1000, 1300]), rng.choice(['a', 'words']))
+
+    def dots(n):
+        return [rng.choice(DOT_LINES) for _ in range(n)]
+
+    parts = []
+    for i in range(nparts):
+        shape = rng.choice(['bare', 'bare', 'emptyhdr', 'hdr', 'dothdr'])
+        lines = []
+        if shape == 'bare':          # no header lines, no empty line: the dot line is directly behind the boundary line
+            lines += dots(rng.randrange(1, 3))
+            if rng.random() < 0.6:
+                lines += [b''] + dots(rng.randrange(0, 2)) + [_txt(rng, rng.randrange(0, 30), 'a')]
+        elif shape == 'emptyhdr':    # empty header, the body starts with the dot line
+            lines += [b''] + dots(rng.randrange(1, 3)) + [_txt(rng, rng.randrange(0, 30), 'a')]
+        elif shape == 'dothdr':      # a header whose first line starts with a dot
+            lines += [rng.choice([b'.X-Dot: 1', b'.: x']), b'Content-Type: text/plain', b''] + dots(rng.randrange(0, 2))
+        else:
+            lines += [rng.choice([b'Content-Type: text/plain', b'Content-Type: text/plain; charset=iso-8859-1', b'X-Part: p'])]
+            if i == where and defect == 'longhdr':
+                lines.append(b'X-Long: ' + _txt(rng, rng.choice([995, 1040, 1771]), 'words'))
+            lines += [b''] + dots(rng.randrange(1, 3)) + [_txt(rng, rng.randrange(0, 30), 'a')]
+        if i == where and not (defect == 'longhdr' and shape == 'hdr'):
+            lines.insert(rng.randrange(len(lines) + 1) if b'' not in lines else rng.randrange(lines.index(b'') + 1, len(lines) + 1), bad_line())
+        if rng.random() < 0.6:
+            lines += dots(1)           # the last line in front of the next boundary
+        parts.append(b''.join(l + eol for l in lines))
+    hdr = [b'Subject: dots', b'MIME-Version: 1.0']
+    hdr.insert(rng.randrange(3), b'Content-Type: multipart/mixed; boundary=' + (b'"' + b + b'"' if quoted else b))
+    m = eol.join(hdr) + eol + eol
+    pre = rng.random()
+    if pre < 0.3:
+        m += b''.join(l + eol for l in dots(rng.randrange(1, 3)))
+    elif pre < 0.5:
+        m += b'This is a MIME message.' + eol + b'.' + eol
+    if where == -1:
+        m += bad_line() + eol
+    bare_hdr = pre >= 0.5 and where != -1     # nothing behind the header's empty line yet
+    for k, x in enumerate(parts):
+        # the line end in front of a delimiter belongs to the delimiter; for the first one it may be the header's empty line
+        m += (b'' if k == 0 and bare_hdr and rng.random() < 0.6 else eol) + b'--' + b + eol + x
+    last = rng.random()
+    if last < 0.8:
+        m += eol + b'--' + b + b'--' + eol
+        if rng.random() < 0.4:
+            m += b''.join(l + eol for l in dots(rng.randrange(1, 3)))
+        if where == nparts and rng.random() < 0.7:
+            m += bad_line() + eol
+    elif where == nparts:
+        m += bad_line()
+    return m
+
+
 def gen_message(rng):
     s = rng.random()
     if 0.70 <= s < 0.79:
         return _part_matrix(rng)
+    if 0.63 <= s < 0.70:
+        return _dot_parts(rng)
     # the other streams share the rest of the unit interval in their old proportions
-    s = s / 0.70 * 0.80 if s < 0.70 else (0.80 + (s - 0.79) / 0.21 * 0.20)
+    s = s / 0.63 * 0.80 if s < 0.63 else (0.80 + (s - 0.79) / 0.21 * 0.20)
     if s < 0.10:      # tiny, exhaustive-ish alphabet: every interaction of CR LF dot blank
         n = rng.randrange(0, 9)
         return bytes(rng.choice(b'\r\n. a=\t\x80') for _ in range(n))
@@ -288,13 +365,15 @@ def gen_cases(op, rng, tier):
 
 
 # ------------------------------------------------------------------ shared evidence helpers
-RULE = ('cases = (extension mask, message bytes, HELO name) for the sequence need_recode(); send_data() of qremote.c; messages from eight '
+RULE = ('cases = (extension mask, message bytes, HELO name) for the sequence need_recode(); send_data() of qremote.c; messages from nine '
         'streams: tiny words over {CR, LF, ".", blank, tab, "=", "a", 0x80}; 7-bit text with mixed CR/LF/CRLF ends and sizes around the '
         '1200/1205/1269/1280-octet staging buffers; single lines of 996..1002 octets with/without dot and line end; header+body that needs '
         'quoted-printable with lines around the 72..76 soft-break columns and every last byte in {blank, tab, CR, LF, ".", "=", 0x80, NUL}; '
         'long header lines (fold points 50/800/970, with and without blanks); multipart with present / missing / duplicated / terminal '
         'boundaries and nested parts; well-formed multipart with exactly one defective part (over-long line in its own header / in its body, '
-        '8 bit in its body / header, none) at every position and nested; raw random bytes. non-trivial = the C completed the transfer and the message contains a bare CR or LF, '
+        '8 bit in its body / header, none) at every position and nested; well-formed multipart whose parts, preamble and epilogue begin / end with '
+        'dot lines (directly behind a boundary line, behind an empty or real part header, in front of the next boundary) with the defect that forces '
+        'send_qp in any part, the preamble or the epilogue; raw random bytes. non-trivial = the C completed the transfer and the message contains a bare CR or LF, '
         'a leading dot, an 8-bit octet or a line above 72 octets; distinct by case text')
 TRUSTED_BASE = [
     'Coq 8.16.1 kernel (coqc; coqchk in thorough); vm_compute in the non-vacuity examples only; no native_compute',
